@@ -443,6 +443,9 @@ def corr_core(prop, parts):
 
 def check_C16(tier, seed, replay=None):
     corr = _corr_generic("hintcases", "C16", "Hints.eng_selects vs the selects recorded by the instrumented storage (no optimizers)", 150, 1500)
+    # Pool.key_eqb vs the real storage.SelectorPool: which pairs of requests get one shared selector
+    corr = _corr_multi(corr, _corr_generic("poolcases", "C16", "Pool.key_eqb vs the sharing decisions of the real storage.SelectorPool on pairs of "
+                       "requests (one field changed, fields outside the key, numbers whose digits are cut differently)", 100, 1000, shards_quick=4, shards_thorough=8))
     return ref_family_check("C16", tier, seed, [("hints", "", 1500), ("hints", "range", 500), ("hints", "func", 500), ("hints", "pairs", 1000), ("hints", "subpairs", 800)],
                             [("hints", "", 30000), ("hints", "range", 10000), ("hints", "func", 10000), ("hints", "deep", 10000), ("hints", "pairs", 40000), ("hints", "subpairs", 20000)], corr=corr)
 
